@@ -91,8 +91,15 @@ def _cases(draw, tier):
             bk = []
         bv = [draw(st.sampled_from(["1/2", "-1/2", "1/4", "1", "-3/4", "1/3"])) for _ in bk]
         a = draw(st.sampled_from(["3", "4", "5", "9/2", "7"]))
+        graded = False
+        if d and draw(st.integers(0, 4)) == 0 and not cfg.get("basis"):
+            # graded algebra: the Study number stores complete grades (scalar + the whole grade g), in canonical order
+            g = draw(st.sampled_from([1, d, 2 if d >= 2 else 1]))
+            bk = [k for k in S.canon_sorted(range(2 ** d)) if pc(k) == g]
+            bv = [draw(st.sampled_from(["1/2", "-1/2", "1/4", "0", "0", "1/3"])) for _ in bk]
+            graded = True
         return {"kind": kind, "cfg": cfg, "a": a, "bkeys": bk, "bvals": bv, "form": draw(st.sampled_from(["sqrt", "pow0.5"])),
-                "order": draw(st.sampled_from(["scalar-first", "scalar-last"]))}
+                "order": "scalar-first" if graded else draw(st.sampled_from(["scalar-first", "scalar-last"])), "graded": graded}
     if kind == "pow":
         cfg = draw(S.configs(0, 4, custom=0.1, dweights=[0, 1, 2, 2, 3, 3, 4]))
         d = len(cfg["sig"])
@@ -109,6 +116,9 @@ def _cases(draw, tier):
     else:
         # scalar + one blade, or two commuting blades: x*~x is a Study number (scalar + blade), often with a non-scalar part
         k1 = draw(st.integers(1, 2 ** d - 1))
+        nulls = [j for j, sg in enumerate(cfg["sig"]) if sg == 0]
+        if nulls and draw(st.booleans()):
+            k1 |= 1 << nulls[0]        # a blade containing a null generator: normsq = a^2 + 2ab*B has scalar part exactly a^2
         keys = [0, k1] if draw(st.booleans()) else [k1, (2 ** d - 1) ^ k1 if (2 ** d - 1) ^ k1 else k1]
         keys = list(dict.fromkeys(keys))
     vals = [draw(st.sampled_from(SMALL)) for _ in keys]
@@ -161,8 +171,8 @@ def evaluate(case):
     ref = RefAlgebra(cfg)
     d = ref.d
     Rr = R(d, ref.T)
-    alg = kd.build_algebra(cfg)
-    labels = [f"kind:{kind}", f"d:{d}"]
+    alg = kd.build_algebra(cfg, graded=bool(case.get("graded")))
+    labels = [f"kind:{kind}", f"d:{d}"] + (["opt:graded"] if case.get("graded") else [])
     counters = {}
     nontrivial = False
     if kind == "outer":
